@@ -125,7 +125,7 @@ func canon(kk string, i int) int {
 		return i % 256
 	case "bool":
 		return i % 2
-	case "f64":
+	case "f64", "f32":
 		if i == 1 || i == 12 {
 			return 0
 		}
